@@ -54,13 +54,13 @@ func (CrashScenario) GenCase(r *rand.Rand, prop string) interface{} {
 	}
 	c.Torn = chance(r, 50)
 	for i, n := 0, r.IntN(4); i < n; i++ {
-		c.Seeds = append(c.Seeds, IdxMut{ID: "s" + strconv.Itoa(i+1), K: pick(r, idxKeys...), N: pick(r, "x", "y"), V: 100 + i})
+		c.Seeds = append(c.Seeds, IdxMut{ID: "s" + strconv.Itoa(i+1), K: pick(r, idxKeys...), N: pick(r, "x", "y", ""), V: 100 + i})
 	}
 	v := 0
 	inits := 0
 	for i, n := 0, 3+r.IntN(8); i < n; i++ {
 		v++
-		op := CrashOp{ID: pick(r, crashIDs...), K: pick(r, idxKeys...), N: pick(r, "x", "y", "xy"), V: v}
+		op := CrashOp{ID: pick(r, crashIDs...), K: pick(r, idxKeys...), N: pick(r, "x", "y", "xy", ""), V: v}
 		switch k := r.IntN(100); {
 		case k < 25:
 			op.Kind = "create"
